@@ -119,18 +119,19 @@ class Geometry:
                 # NOTE: cv2.INTER_AREA is conservative for shrinking and for enlarging by
                 # integer factors, but not if one axis is enlarged while the other one is
                 # shrunk at the same time. Thus, resize axis by axis.
-                rows, cols = fetched_data.shape[:2]
-                row_resized_voxel_volume = cv2.resize(
-                    self.voxel_volume,
-                    (self.voxel_volume.shape[1], rows),
-                    interpolation=cv2.INTER_AREA,  # conservative.
-                )
-                self.cached_voxel_volume = (
-                    cv2.resize(
-                        row_resized_voxel_volume,
-                        (cols, rows),
-                        interpolation=cv2.INTER_AREA,  # conservative.
+                # For enlarging by an integer factor, replicate the values; cv2 picks the
+                # wrong source voxel for some factors (e.g. 49) due to rounding.
+                def resize_axis(array: np.ndarray, size: int, axis: int) -> np.ndarray:
+                    if size % array.shape[axis] == 0:
+                        return np.repeat(array, size // array.shape[axis], axis=axis)
+                    dsize = (array.shape[1], size) if axis == 0 else (size, array.shape[0])
+                    return cv2.resize(
+                        array, dsize, interpolation=cv2.INTER_AREA  # conservative.
                     )
+
+                rows, cols = fetched_data.shape[:2]
+                self.cached_voxel_volume = (
+                    resize_axis(resize_axis(self.voxel_volume, rows, 0), cols, 1)
                     * scaling
                 )
 
